@@ -187,6 +187,8 @@ Proof.
     destruct auth as [c|]; [|apply decay_refl]. destruct (clients s c) as [cl|]; [|apply decay_refl].
     destruct (negb (args_has (cl_grants cl) _)); [apply decay_refl|].
     destruct (key_of s dev) as [k|]; [|apply decay_refl].
+    destruct (used_device cfg (st s) k) as [rid|].
+    { cbn [fst fail st set_store]. eapply decay_trans; [apply decay_revoke_access|apply decay_revoke_refresh]. }
     destruct (device (st s) k) as [[stt r]|] eqn:Ed; [|apply decay_refl].
     repeat match goal with |- context [if ?c then fail s _ else _] => destruct c; [apply decay_refl|] end.
     match goal with |- context [grant_tokens ?s2 ?stored ?w] =>
